@@ -24,7 +24,7 @@ PROLOGUE = ['D128.Props.C15']
 
 PROPS = {
     'C01': P('C01', 48000, 4000000, modules=['D128.Props.C01'] + KERNEL + PROLOGUE, kernel=ROUNDING_KERNELS + ['Decimal.add']),
-    'C02': P('C02', 48000, 4000000, modules=['D128.Props.C02', 'D128.Proofs.Words128Div'] + KERNEL + PROLOGUE, kernel=ROUNDING_KERNELS),
+    'C02': P('C02', 48000, 4000000, modules=['D128.Props.C02', 'D128.Props.C02Quo', 'D128.Proofs.Words128Div'] + KERNEL + PROLOGUE, kernel=ROUNDING_KERNELS),
     'C03': P('C03', 32000, 2000000, modules=['D128.Props.C03', 'D128.Proofs.Words128Div'] + KERNEL + PROLOGUE, kernel=['U128.div', 'U128.mul64', 'RoundingMode.reduce128', 'RoundingMode.round']),
     'C04': P('C04', 16000, 1500000, modules=['D128.Props.C04'], kernel=['U128.cmp', 'U128.div1*', 'U128.div10*', 'Decimal.Cmp', 'Decimal.CmpAbs', 'Decimal.Equal']),
     'C05': P('C05', 32000, 2000000, modules=['D128.Props.C05'] + KERNEL, kernel=['parseNumber', 'parse', 'RoundingMode.reduce128']),
